@@ -19,9 +19,9 @@ RULE = ("case = one schema cooked into 7 engines: default LRU(512), lru_cache(1)
         "equals the uncached reference's response (data exactly, errors as multisets), and for a sample of positions also "
         "the response of a brand-new uncached engine built for that single request; the uncached engine itself answers one "
         "request identically wherever it stands in the sequence and never refuses a request generated valid whose "
-        "reference-executor answer has data. non-trivial = sequence in which the "
-        "cached engines together saw >=1 hit after a miss and >=1 eviction or invalid-document hit; distinct by (SDL, "
-        "sequence)") % SEQS_PER_SCHEMA
+        "reference-executor answer has data. non-trivial = sequence over >=3 distinct texts in which "
+        "some text is asked again after another one (hits / evictions of the recording caches are evidence, not a gate); "
+        "distinct by (SDL, sequence)") % SEQS_PER_SCHEMA
 ASSUMPTIONS = ["pure resolvers", "responses compared after normalising error order"]
 ANCHORS = [
     "tartiflette.engine:Engine.execute",
@@ -222,7 +222,11 @@ async def run_case(ctx, rng, index):
             st.inc("cache_hits_on_invalid_documents", inv)
             for it in pool:
                 st.inc("kind:" + it.kind)
-            if hits and (ev or inv):
+            # non-trivial is a property of the SEQUENCE (a text asked again after other texts, an invalid document asked twice),
+            # not of what the harness's own cache wrappers saw: an engine may put a transparent memo in front of them
+            texts = [repr(pool[i].text) for i in seq]
+            again = any(texts[i] in texts[:i - 1] for i in range(2, len(texts)))
+            if again and len(set(texts)) >= 3:
                 st.distinct("nontrivial", (sdl, canon(seq), canon([repr(it.text) for it in pool])))
             st.sample({"sequence": seq, "pool": [{"query": repr(it.text)[:120], "kind": it.kind, "variables": it.variables} for it in pool]}, limit=2)
             for _, _, c in under:
